@@ -40,7 +40,8 @@ import (
 //
 // Every contract records its calls (receiver, argument pointers, argument VALUES at call time,
 // result) in the ghost variable verifG. The native twin runs the real functions, so verifG stays
-// empty there; the MUSTFAIL controls are therefore stated on results only.
+// empty there; obligations that read verifG use verifAssertGhost, and the MUSTFAIL controls are
+// stated on results only.
 //
 // Algebraic facts that are NOT checked here (they are about the replaced functions): y -> p - y
 // flips the parity of a non-zero y; SetFromAffineX/SetAffine accept exactly the curve points.
@@ -262,6 +263,11 @@ func verifWireLen() int {
 }
 
 // ---- FromCompressed
+//
+// Control flow of the harnesses below depends only on what the native twin observes as well
+// (input, returned point, error); everything that reads the ghost record verifG is stated with
+// verifAssertGhost (a counterexample there is inconclusive, never VIOLATION, because the native
+// twin runs the real functions and has no ghost record).
 
 // H_k256dec_compressed: all obligations for FromCompressed, input = arbitrary bytes of length
 // 0, 32, 33, 34, 64, 65 or 66.
@@ -278,54 +284,55 @@ func H_k256dec_compressed() {
 	verifAssert("comp.point_xor_error", (p == nil) != (err == nil))
 	if n != 33 {
 		verifAssert("comp.wrong_length_rejected", p == nil && err != nil && errors.Is(err, curves.ErrInvalidLength))
-		verifAssert("comp.wrong_length_touches_nothing", verifNoContractCalled())
+		verifAssertGhost("comp.wrong_length_touches_nothing", verifNoContractCalled())
 		return
 	}
 	tag := in[0]
 	if tag != 2 && tag != 3 {
 		verifAssert("comp.bad_tag_rejected", p == nil && err != nil && errors.Is(err, curves.ErrFailed))
-		verifAssert("comp.bad_tag_touches_nothing", verifNoContractCalled())
+		verifAssertGhost("comp.bad_tag_touches_nothing", verifNoContractCalled())
 		return
 	}
 	verifReach("k256dec_compressed_wellformed")
 	// the x coordinate: exactly input[1:33], reversed to little-endian, decoded once
 	sb := &g.setBytes[0]
-	verifAssert("comp.x_decoded_once_from_bytes_1_to_33_reversed", g.nSetBytes == 1 && sb.n == 32 && sb.data == verifLE32(inCopy[1:33]))
-	verifAssert("comp.zero_test_on_decoded_x", g.isZeroGhost == 1 && g.isZeroReal == 0)
+	verifAssertGhost("comp.x_decoded_once_from_bytes_1_to_33_reversed", g.nSetBytes == 1 && sb.n == 32 && sb.data == verifLE32(inCopy[1:33]))
+	verifAssertGhost("comp.zero_test_on_decoded_x", g.isZeroGhost == 1 && g.isZeroReal == 0)
 	if verifAllZero(inCopy[1:33]) {
 		verifReach("k256dec_compressed_x0")
 		verifAssert("comp.x_zero_is_identity", err == nil && verifIsIdentity(p))
 	}
-	if sb.zero == 1 {
-		// reserved encoding: x = 0 (there is no curve point with x = 0) denotes the identity
-		verifAssert("comp.zero_x_gives_identity_without_membership_test", err == nil && verifIsIdentity(p) && g.sfaxCalls == 0 && g.saCalls == 0 && g.negCalls == 0)
+	if err != nil {
+		verifReach("k256dec_compressed_rejected")
+		verifAssert("comp.wellformed_rejected_only_as_invalid_coordinates", p == nil && errors.Is(err, curves.ErrInvalidCoordinates))
+		verifAssertGhost("comp.rejected_iff_membership_test_on_decoded_x_said_no",
+			sb.zero != 1 && g.sfaxCalls == 1 && g.sfaxOK != 1 && g.sfaxX == sb.recv && verifSameValue(g.sfaxXVal, sb.val))
+		verifAssertGhost("comp.rejected_no_further_calls", g.saCalls == 0 && g.taCalls == 0 && g.bytesCalls == 0 && g.negCalls == 0)
 		return
 	}
-	verifAssert("comp.membership_test_called_once_on_decoded_x",
-		g.sfaxCalls == 1 && g.saCalls == 0 && g.sfaxX == sb.recv && verifSameValue(g.sfaxXVal, sb.val))
-	if g.sfaxOK != 1 {
-		verifReach("k256dec_compressed_offcurve")
-		verifAssert("comp.off_curve_rejected", p == nil && err != nil && errors.Is(err, curves.ErrInvalidCoordinates))
-		verifAssert("comp.off_curve_no_further_calls", g.taCalls == 0 && g.bytesCalls == 0 && g.negCalls == 0)
+	if p == nil {
+		return // excluded by comp.point_xor_error
+	}
+	if verifIsIdentity(p) {
+		// reserved encoding: x = 0 (there is no curve point with x = 0) denotes the identity
+		verifReach("k256dec_compressed_identity")
+		verifAssertGhost("comp.identity_only_for_zero_x_without_membership_test",
+			sb.zero == 1 && g.sfaxCalls == 0 && g.saCalls == 0 && g.taCalls == 0 && g.negCalls == 0)
 		return
 	}
 	verifReach("k256dec_compressed_accepted")
-	verifAssert("comp.accepted", err == nil && p != nil)
-	if p == nil {
-		return
-	}
-	verifAssert("comp.returned_point_is_the_tested_one", g.sfaxRecv == &p.V)
-	verifAssert("comp.returned_x_is_decoded_x_and_affine", verifSameValue(p.V.X, sb.val) && p.V.Z.IsOne() == 1)
-	verifAssert("comp.to_affine_succeeds", g.taCalls == 1 && g.taRecv == &p.V && g.taOK == 1)
-	verifAssert("comp.parity_read_from_returned_y", g.bytesCalls == 1 && g.bytesRecv == &p.V.Y)
-	differs := g.bytesParity != tag&1
-	if differs {
-		verifAssert("comp.negated_exactly_when_parity_differs", g.negCalls == 1 && g.negRecv == &p.V && g.negArg == &p.V)
-	} else {
-		verifAssert("comp.negated_exactly_when_parity_differs", g.negCalls == 0)
-	}
+	verifAssertGhost("comp.accepted_iff_membership_test_on_decoded_x_said_yes",
+		sb.zero != 1 && g.sfaxCalls == 1 && g.saCalls == 0 && g.sfaxOK == 1 && g.sfaxX == sb.recv && verifSameValue(g.sfaxXVal, sb.val))
+	verifAssertGhost("comp.returned_point_is_the_tested_one", g.sfaxRecv == &p.V)
+	verifAssertGhost("comp.returned_x_is_decoded_x", verifSameValue(p.V.X, sb.val))
+	verifAssert("comp.returned_point_is_affine", p.V.Z.IsOne() == 1)
+	verifAssertGhost("comp.to_affine_succeeds", g.taCalls == 1 && g.taRecv == &p.V && g.taOK == 1)
+	verifAssertGhost("comp.parity_read_from_returned_y", g.bytesCalls == 1 && g.bytesRecv == &p.V.Y)
+	verifAssertGhost("comp.negated_exactly_when_parity_differs",
+		(g.bytesParity != tag&1 && g.negCalls == 1 && g.negRecv == &p.V && g.negArg == &p.V) ||
+			(g.bytesParity == tag&1 && g.negCalls == 0))
 	// parity of the returned y = parity read, flipped once per negation (fact about Neg, see top)
-	verifAssert("comp.returned_y_parity_is_tag_bit", (g.bytesParity^byte(g.negCalls&1)) == tag&1)
+	verifAssertGhost("comp.returned_y_parity_is_tag_bit", (g.bytesParity^byte(g.negCalls&1)) == tag&1)
 }
 
 // ---- FromUncompressed
@@ -344,43 +351,47 @@ func H_k256dec_uncompressed() {
 	verifAssert("unc.point_xor_error", (p == nil) != (err == nil))
 	if n != 65 {
 		verifAssert("unc.wrong_length_rejected", p == nil && err != nil && errors.Is(err, curves.ErrInvalidLength))
-		verifAssert("unc.wrong_length_touches_nothing", verifNoContractCalled())
+		verifAssertGhost("unc.wrong_length_touches_nothing", verifNoContractCalled())
 		return
 	}
 	if in[0] != 4 {
 		verifAssert("unc.bad_tag_rejected", p == nil && err != nil && errors.Is(err, curves.ErrFailed))
-		verifAssert("unc.bad_tag_touches_nothing", verifNoContractCalled())
+		verifAssertGhost("unc.bad_tag_touches_nothing", verifNoContractCalled())
 		return
 	}
 	verifReach("k256dec_uncompressed_wellformed")
 	sx, sy := &g.setBytes[0], &g.setBytes[1]
-	verifAssert("unc.x_then_y_decoded_from_bytes_1_to_33_and_33_to_65_reversed",
+	verifAssertGhost("unc.x_then_y_decoded_from_bytes_1_to_33_and_33_to_65_reversed",
 		g.nSetBytes == 2 && sx.n == 32 && sy.n == 32 && sx.recv != sy.recv &&
 			sx.data == verifLE32(inCopy[1:33]) && sy.data == verifLE32(inCopy[33:65]))
-	verifAssert("unc.never_uses_compressed_route", g.sfaxCalls == 0 && g.taCalls == 0 && g.bytesCalls == 0 && g.negCalls == 0)
+	verifAssertGhost("unc.never_uses_compressed_route", g.sfaxCalls == 0 && g.taCalls == 0 && g.bytesCalls == 0 && g.negCalls == 0)
 	if verifAllZero(inCopy[1:65]) {
 		verifReach("k256dec_uncompressed_00")
 		verifAssert("unc.all_zero_is_identity", err == nil && verifIsIdentity(p))
 	}
-	if sx.zero == 1 && sy.zero == 1 {
-		verifAssert("unc.zero_zero_gives_identity_without_membership_test", err == nil && verifIsIdentity(p) && g.saCalls == 0)
+	if err != nil {
+		verifReach("k256dec_uncompressed_rejected")
+		verifAssert("unc.wellformed_rejected_only_as_invalid_coordinates", p == nil && errors.Is(err, curves.ErrInvalidCoordinates))
+		verifAssertGhost("unc.rejected_iff_membership_test_on_decoded_x_y_said_no",
+			!(sx.zero == 1 && sy.zero == 1) && g.saCalls == 1 && g.saOK != 1 &&
+				g.saX == sx.recv && g.saY == sy.recv && verifSameValue(g.saXVal, sx.val) && verifSameValue(g.saYVal, sy.val))
 		return
 	}
-	verifAssert("unc.membership_test_called_once_on_decoded_x_y",
-		g.saCalls == 1 && g.saX == sx.recv && g.saY == sy.recv && verifSameValue(g.saXVal, sx.val) && verifSameValue(g.saYVal, sy.val))
-	if g.saOK != 1 {
-		verifReach("k256dec_uncompressed_offcurve")
-		verifAssert("unc.off_curve_rejected", p == nil && err != nil && errors.Is(err, curves.ErrInvalidCoordinates))
+	if p == nil {
+		return // excluded by unc.point_xor_error
+	}
+	if verifIsIdentity(p) {
+		verifReach("k256dec_uncompressed_identity")
+		verifAssertGhost("unc.identity_only_for_zero_zero_without_membership_test", sx.zero == 1 && sy.zero == 1 && g.saCalls == 0)
 		return
 	}
 	verifReach("k256dec_uncompressed_accepted")
-	verifAssert("unc.accepted", err == nil && p != nil)
-	if p == nil {
-		return
-	}
-	verifAssert("unc.returned_point_is_the_tested_one", g.saRecv == &p.V)
-	verifAssert("unc.returned_coordinates_are_the_decoded_ones",
-		verifSameValue(p.V.X, sx.val) && verifSameValue(p.V.Y, sy.val) && p.V.Z.IsOne() == 1)
+	verifAssertGhost("unc.accepted_iff_membership_test_on_decoded_x_y_said_yes",
+		!(sx.zero == 1 && sy.zero == 1) && g.saCalls == 1 && g.saOK == 1 &&
+			g.saX == sx.recv && g.saY == sy.recv && verifSameValue(g.saXVal, sx.val) && verifSameValue(g.saYVal, sy.val))
+	verifAssertGhost("unc.returned_point_is_the_tested_one", g.saRecv == &p.V)
+	verifAssertGhost("unc.returned_coordinates_are_the_decoded_ones", verifSameValue(p.V.X, sx.val) && verifSameValue(p.V.Y, sy.val))
+	verifAssert("unc.returned_point_is_affine", p.V.Z.IsOne() == 1)
 }
 
 // ---- controls
@@ -415,9 +426,11 @@ func H_k256dec_generator_sanity() {
 	p, err, panicked := verifDecode(true, in)
 	verifAssert("gen.no_panic", !panicked)
 	if err != nil {
-		verifAssert("gen.only_membership_can_reject", errors.Is(err, curves.ErrInvalidCoordinates) && verifG.sfaxOK == 0)
+		verifAssert("gen.only_membership_can_reject", errors.Is(err, curves.ErrInvalidCoordinates))
+		verifAssertGhost("gen.rejected_by_membership_test", verifG.sfaxCalls == 1 && verifG.sfaxOK == 0)
 	} else {
 		verifReach("k256dec_generator_accepted")
-		verifAssert("gen.accepted_point", p != nil && verifG.sfaxCalls+verifG.isZeroGhost >= 1)
+		verifAssert("gen.accepted_point", p != nil)
+		verifAssertGhost("gen.accepted_by_membership_test_or_zero_flag", verifG.sfaxCalls+verifG.isZeroGhost >= 1)
 	}
 }
